@@ -407,6 +407,9 @@ class ProdParser:
             if token[0] == self.types.S:
                 try:
                     next_ = next(tokens)
+                    while next_[0] == self.types.S:
+                        # S S: a comment in between has been dropped
+                        next_ = next(tokens)
                 except StopIteration:
                     yield token
                 else:
